@@ -5,3 +5,4 @@
 #  mktime              libc re-reads the time zone on every call (frees and re-allocates its own
 #                      TZ string); attributed to libc so that it is not mistaken for decoder memory
 LDFLAGS_w_c01 := -Wl,--wrap=gettimeofday -Wl,--wrap=pthread_mutex_lock -Wl,--wrap=pthread_mutex_unlock -Wl,--wrap=pthread_mutex_trylock -Wl,--wrap=mktime
+EXTRAOBJ_w_c01 = $(O)/wc/tripwire_c01.o
